@@ -251,8 +251,8 @@ def check(rep, F, tier, replay=None):
                     rep.violation("RNG", "%s|%s" % (root_key, to), "%s calls %s on a build path: repeated builds are no longer deterministic" % (root_key, to), {})
     from ruleutil import ord_eq_rule
     ord_eq_rule(rep, F)
-    from ruleutil import datum_id_rule
-    datum_id_rule(rep, F)
+    from ruleutil import datum_rules
+    datum_rules(rep, F)
     from ruleutil import hash_eq_rule
     hash_eq_rule(rep, F)
     return rep.finish(
